@@ -23,7 +23,7 @@ PROPS = {
          "rule": "generated CSV x delimiter x run size x workers x store-op schedule; non-trivial = >=2 rows and (spill or >=2 blocks or duplicate keys or cell >=255 bytes); distinct by plan hash"},
     ]},
     "C16": {"level": "exploration", "profiles": [
-        {"id": "C16", "race": True, "quick_n": 160, "thorough_n": 20000, "quick_s": 70, "thorough_s": 1500, "timeout": 180,
+        {"id": "C16", "race": True, "cpu": 4, "hang_s": 30, "quick_n": 200, "thorough_n": 20000, "quick_s": 70, "thorough_s": 1500, "timeout": 180,
          "rule": "one OS process per case under -race; synthetic multi-block table x workers 3..16 x run size x schedule seed x 0-2 injected store errors; non-trivial = >=2 effective workers and >=2 blocks (or an injected error fired); distinct by plan hash"},
     ]},
     "C19": {"level": "exploration", "profiles": [
